@@ -105,6 +105,56 @@ def handlePrintList (lead occ w k items : String) : String :=
     | none => "bad-op"
   | _, _, _, _ => "bad-op"
 
+mutual
+/-- operand tokens: `w,<hex>` | `g,<lead>,<occ>,<k>,<n>,Opd, n × (<op>,<occ>,<sp1>,<sp2>,Opd)` -/
+def parseOpdToks : Nat → List String → Option (Opd × List String)
+  | 0, _ => none
+  | fuel + 1, toks =>
+    match toks with
+    | "w" :: h :: rest => (textOfHex h).map fun w => (wordOpd w, rest)
+    | "g" :: lead :: occ :: k :: n :: rest =>
+      match lead.toNat?, parseOccTok occ, k.toNat?, n.toNat? with
+      | some lead, some occ, some k, some n =>
+        match parseOpdToks fuel rest with
+        | some (o, rest1) =>
+          match parseItemToks fuel n rest1 with
+          | some (more, rest2) => some (groupOpd lead occ o more k, rest2)
+          | none => none
+        | none => none
+      | _, _, _, _ => none
+    | _ => none
+def parseItemToks : Nat → Nat → List String → Option (List PItem × List String)
+  | 0, _, _ => none
+  | _ + 1, 0, toks => some ([], toks)
+  | fuel + 1, n + 1, toks =>
+    match toks with
+    | op :: occ :: a :: b :: rest =>
+      match parseOpTok op, parseOccTok occ, a.toNat?, b.toNat?, parseOpdToks fuel rest with
+      | some op, some occ, some a, some b, some (o, rest1) =>
+        match parseItemToks fuel n rest1 with
+        | some (more, rest2) => some (⟨op, occ, o, a, b⟩ :: more, rest2)
+        | none => none
+      | _, _, _, _, _ => none
+    | _ => none
+end
+
+/-- `printt <lead>,<occ>,<k>,<n>,Opd,items…` → hex of the printed top-level operand list (the
+    printer of `C16_print_parse_nested`) -/
+def handlePrintTree (toks : String) : String :=
+  let ts := toks.splitOn ","
+  match ts with
+  | lead :: occ :: k :: n :: rest =>
+    match lead.toNat?, parseOccTok occ, k.toNat?, n.toNat? with
+    | some lead, some occ, some k, some n =>
+      match parseOpdToks (ts.length + 1) rest with
+      | some (o, rest1) =>
+        match parseItemToks (ts.length + 1) n rest1 with
+        | some (more, []) => hexStr (printList lead occ o more k [])
+        | _ => "bad-op"
+      | none => "bad-op"
+    | _, _, _, _ => "bad-op"
+  | _ => "bad-op"
+
 def handleParse (h : String) : String :=
   match textOfHex h with
   | some s => showOutcome (parseStrict s)
